@@ -63,6 +63,10 @@ class ReplayInvalid(Exception):
     pass
 
 
+class ContractError(Exception):
+    pass
+
+
 class Ghost:
     """a stand-in `self`: only the attributes the method under contract may read; anything
     else raises AttributeError (=> the obligation fails loudly, a frame violation)"""
@@ -278,7 +282,7 @@ class H:
         return x
 
     # ---- requires / ensures
-    def assume(self, cond):
+    def assume(self, cond, name=None):
         cond = self.all(cond)
         if self.mode == "sym":
             if cond is True:
@@ -286,20 +290,35 @@ class H:
             if cond is False:
                 raise core.Infeasible()
             core.ctx().assume(core.tobool(cond))
+            if name:
+                core.ctx().memo.setdefault("named_facts", {})[name] = core.tobool(cond)
         else:
             if not cond:
                 raise ReplayInvalid("precondition false on replay")
 
-    def check(self, name, cond, lemma=False):
+    def check(self, name, cond, lemma=False, using=None):
         """named ensures clause.  lemma=True: once stated (and separately discharged, like
-        every clause) it may be used by the clauses that follow (cut rule)."""
+        every clause) it may be used by the clauses that follow (cut rule).
+        using=[names]: try first with ONLY the named earlier facts (lemma clauses and named
+        assumptions, which must already be on the path condition) - a subset of the real
+        hypotheses, so `unsat` from the subset is sound; the full fact set is the fall-back."""
         cond = self.all(cond)
         if self.mode == "sym":
             c = core.ctx()
             t = core.tobool(cond)
-            c.obligations.append((name, t, len(c.pc)))
+            named = c.memo.setdefault("named_facts", {})
+            focus = None
+            if using is not None:
+                focus = []
+                have = {f.get_id() for f in c.pc}
+                for u in using:
+                    if u not in named or named[u].get_id() not in have:
+                        raise ContractError("check %r: `using` names %r which is not a fact on this path" % (name, u))
+                    focus.append(named[u])
+            c.obligations.append((name, t, len(c.pc), focus))
             if lemma:
                 c.pc.append(t)
+                named[name] = t
         else:
             self.results.append((name, bool(cond)))
 
@@ -528,14 +547,40 @@ def _linear_abstraction(terms, som=True):
     out = [walk(t) for t in pre]
     # valid facts about real products keep the abstraction useful: sign rules (binary)
     extra = []
+
+    def sign_rules(a, b, v):
+        extra.append(z3.Implies(z3.Or(a == 0, b == 0), v == 0))
+        extra.append(z3.Implies(z3.Or(z3.And(a > 0, b > 0), z3.And(a < 0, b < 0)), v > 0))
+        extra.append(z3.Implies(z3.Or(z3.And(a > 0, b < 0), z3.And(a < 0, b > 0)), v < 0))
+
+    aux = [0]
     for key, (v, rest) in list(fresh.items()):
         if key and key[0] == "div":
-            continue
-        if len(rest) == 2 and all(e.sort() in (z3.RealSort(), z3.IntSort()) for e in rest):
+            # q = a / b with b != 0: q * b = a (the product q*b is one more monomial)
             a, b = rest
-            extra.append(z3.Implies(z3.Or(a == 0, b == 0), v == 0))
-            extra.append(z3.Implies(z3.Or(z3.And(a > 0, b > 0), z3.And(a < 0, b < 0)), v > 0))
-            extra.append(z3.Implies(z3.Or(z3.And(a > 0, b < 0), z3.And(a < 0, b > 0)), v < 0))
+            if all(e.sort() == z3.RealSort() for e in (a, b, v)):
+                m = z3.Const("quotmono!%d" % aux[0], z3.RealSort())
+                aux[0] += 1
+                extra.append(z3.Implies(b != 0, m == a))
+                sign_rules(v, b, m)
+            continue
+        if not all(e.sort() in (z3.RealSort(), z3.IntSort()) for e in rest):
+            continue
+        if len(rest) == 2:
+            sign_rules(rest[0], rest[1], v)
+        elif 3 <= len(rest) <= 5:
+            # n-ary monomial: prefix products f1*f2, (f1*f2)*f3, ... each with the binary sign
+            # rules; the real prefix products satisfy them, so the abstraction stays sound
+            prev = rest[0]
+            for k in range(1, len(rest)):
+                if k == len(rest) - 1:
+                    cur = v
+                else:
+                    pk = tuple(e.get_id() for e in rest[: k + 1])
+                    cur = fresh[pk][0] if pk in fresh else z3.Const("prefix!%d" % aux[0], z3.RealSort())
+                    aux[0] += 1
+                sign_rules(prev, rest[k], cur)
+                prev = cur
     return out[:-1] + extra + out[-1:], len(fresh)
 
 
@@ -987,11 +1032,12 @@ def run_contract(contract, tier="quick", findings=None, want_sample=False):
                 # allowed exceptional exit: clauses checked before the raise still count
                 pass
             else:
-                obls.append(("no-unexpected-exception", z3.BoolVal(False), len(c.pc)))
+                obls.append(("no-unexpected-exception", z3.BoolVal(False), len(c.pc), None))
                 tbs = traceback.extract_tb(p.exc.__traceback__)
                 loc = " <- ".join("%s:%d" % (f.filename.rsplit("/", 1)[-1], f.lineno) for f in reversed(tbs[-3:]))
                 res.setdefault("exceptions", []).append("%s: %s @ %s" % (type(p.exc).__name__, str(p.exc)[:200], loc))
-        for name, goal, npc in obls:
+        for name, goal, npc, *rest_ in obls:
+            focus = rest_[0] if rest_ else None
             if time.time() - t_start > budget_s:
                 res["undecided"].append({"obligation": contract.id + "/" + name, "reason": "contract budget of %ds exhausted" % budget_s})
                 a = agg.setdefault(name, {"clause": name, "paths": 0, "discharged": 0, "backend": set(), "solver_s": 0.0, "status": "discharged"})
@@ -1001,8 +1047,16 @@ def run_contract(contract, tier="quick", findings=None, want_sample=False):
             facts = c.pc[:npc] + c.axioms
             a = agg.setdefault(name, {"clause": name, "paths": 0, "discharged": 0, "backend": set(), "solver_s": 0.0, "status": "discharged"})
             a["paths"] += 1
-            solver, r, dt, bes = _solve_z3(facts, goal, tmo)
-            a["solver_s"] += dt
+            r = None
+            if focus is not None:
+                # hypotheses restricted to the named facts (sound: a subset of the facts)
+                solver, r, dt, bes = _solve_z3(list(focus), goal, min(tmo, 20000))
+                a["solver_s"] += dt
+                if r != "unsat":
+                    r = None
+            if r is None:
+                solver, r, dt, bes = _solve_z3(facts, goal, tmo)
+                a["solver_s"] += dt
             backend = "+".join(sorted(bes))
             if want_sample and res["sample"] is None and r == "unsat":
                 smt = solver.to_smt2()
